@@ -101,7 +101,7 @@ def run(tier, seed):
         ecases = ["exp %d 0 0 %x" % (pid, rng.getrandbits(64) | 1) for pid in pair_ids for _ in range(3 if quick else 12)]
         conf.run("finalexp-" + cfg, cfg, "pp", ["drv_pp.c"], ecases, "trace/PpExpTrace.tla",
                  nontrivial=lambda e: e.get("op") == "expo", min_per_shard=1, tlc_timeout=2400, heap="4g")
-    if os.environ.get("C04_EXT") == "1":
+    if os.environ.get("C04_EXT") != "0":
         run_sweep(ev, conf, tier, rng)
     return conf.finish()
 
